@@ -3,7 +3,7 @@ TRUST = ("Trusted: CPython 3.12 running the repository's byte code, z3 5.1, the 
          "execution on every run), the RFC oracles in tlv/oracle. ")
 CHECKS = {
     "C16": {
-        "technique": "symbolic execution of get_full_packet_number (z3 bit-vectors, IEEE double rounding modelled exactly), one inductive step from an arbitrary state",
+        "technique": "symbolic execution of get_full_packet_number (z3 bit-vectors, IEEE double rounding modelled exactly), one inductive step from an arbitrary state; the number handed to the AEAD by decrypt_packet with symbolic key phases",
         "text": "Bounded-exhaustive: for every value of all six largest-packet-number slots in [0,2^62), every truncated value and "
                 "every encoded length 1-4, packet type and direction, z3 shows that the returned number equals RFC 9000 A.3 and that "
                 "only the packet's own slot changes, to max(old, result). One step from an arbitrary state covers histories of any "
@@ -128,7 +128,7 @@ CHECKS["C09"] = {
     "note": TRUST + "Models as in C01/C02. In the delivery harness secrets are concrete (they travel as text) and application data symbolic; the capture reader and file system are stubs (dpkt's DSB block parsing is C12's subject).",
 }
 CHECKS["C18"] = {
-    "technique": "symbolic execution with every environment choice as a solver variable: iteration order of the connection-id sets, completion order of concurrent.futures tasks, existence of files in the working directory, and an earlier in-process run compared with a run in freshly imported modules (self-composition of main.run)",
+    "technique": "symbolic execution with every environment choice as a solver variable: iteration order of the connection-id sets, completion order of concurrent.futures tasks, content of the process environment, existence of files in the working directory, and an earlier in-process run compared with a run in freshly imported modules (self-composition of main.run)",
     "text": "z3 shows that the QUIC export is the same (and correct) whatever order the connection-id sets are iterated in at each "
             "iteration (the only hash-order dependent containers), that main.run's writer calls do not depend on which files exist "
             "in the working directory, and that a run gives the same writer calls after another run in the same process as alone "
